@@ -1,12 +1,40 @@
 (* C11 - writes stay inside the volume and inside what the operation may change.
-   The region classification is Spec/Regions.v (extracted and evaluated on every device write of the
-   implementation).  Theorems so far: the frame of image writes (nothing outside a write's range changes). *)
+   Proved at the layers that compute device offsets; the per-operation footprint on the implementation is
+   classified by the extracted Spec/Regions.v (tools/props/c11.py). *)
 From Coq Require Import NArith List.
-From FatVerif Require Import Model.Base Spec.Image Proofs.ImageProofs.
+From FatVerif Require Import Model.Base Model.Table Model.Fat Model.Offsets Spec.Image
+  Proofs.ImageProofs Proofs.FatProofs Proofs.OffsetsProofs Proofs.CrossProofs.
 Open Scope N_scope.
 
 Theorem C11_write_frame : forall bs im off o,
   (o < off \/ off + N.of_nat (length bs) <= o) -> img_get (img_write im off bs) o = img_get im o.
 Proof. exact img_write_outside. Qed.
 
+(* a table update (any width, any number of mirrored copies) changes no byte outside the FAT copies *)
+Theorem C11_table_update_inside_fat_copies : forall ft s c v s' a,
+  okc_ft ft s c -> fat_set ft s c v = Ok s' ->
+  (a < fs_base s \/ fs_base s + N.of_nat (fs_mirrors s) * fs_size s <= a) ->
+  img_get (fs_img s') a = img_get (fs_img s) a.
+Proof. exact fat_update_inside_fat_copies. Qed.
+
+(* with mirroring disabled the store is the active copy alone: nothing outside that entry's bytes changes *)
+Theorem C11_single_copy_update_confined : forall ft s c v s' a, okc_ft ft s c -> fat_set ft s c v = Ok s' ->
+  fs_mirrors s = 1%nat ->
+  (a < fs_base s + entry_off ft c \/ fs_base s + entry_off ft c + entry_len ft <= a) ->
+  img_get (fs_img s') a = img_get (fs_img s) a.
+Proof.
+  exact (fun ft s c v s' a Hc E => single_copy_frame s s' (entry_off ft c) (entry_len ft) a (fat_set_mirrored ft s c v s' Hc E)).
+Qed.
+
+(* data: every cluster of an accepted volume lies completely inside the declared volume, without address wrap-around *)
+Theorem C11_cluster_inside_volume : forall g c, ogeom_ok g -> 2 <= c < o_clusters g + 2 ->
+  exists off, offset_from_cluster g c = Ok off /\
+    off = (o_first_data g + (c - 2) * o_spc g) * o_bps g /\
+    off + cluster_size g <= o_total_sectors g * o_bps g /\
+    off + cluster_size g <= 4294967295 * 4096.
+Proof. exact offset_arith_exact. Qed.
+
 Print Assumptions C11_write_frame.
+Print Assumptions C11_table_update_inside_fat_copies.
+Print Assumptions C11_single_copy_update_confined.
+Print Assumptions C11_cluster_inside_volume.
